@@ -214,7 +214,7 @@ def judge(mod: Any, eid: int, args: Tuple[Any, ...], strict_error: bool, strict_
     return ok, True, "violation"
 
 
-HEAVY_MARKS = ("{x, y}", "f'", "str(x)", " & ", " | ", " ^ ", ">>", "<<", "**", "{i for i", "{i: ")
+HEAVY_MARKS = ("{x, y}", "f'", "str(x)", " & ", " | ", " ^ ", ">>", "<<", "**", "{i for i", "{i: ", "{*")
 
 
 def is_heavy(expr: str) -> bool:
